@@ -3,7 +3,7 @@
    extracted file into the current directory. *)
 From Coq Require Import Extraction ExtrOcamlBasic.
 From LV Require Import Base.Bytes Base.Utf8 Base.Base64 Model.Codec Model.Response Model.ServerInfo
-  Model.Auth Model.Client Model.Address Spec.SmtpData Spec.Xtext.
+  Model.Auth Model.Client Model.Address Model.HeaderEnc Spec.SmtpData Spec.Xtext Spec.Rfc5322 Spec.Rfc2047 Spec.Rfc2231.
 Extraction Language OCaml.
 Extraction "model.ml"
   Codec.encode Codec.wire SmtpData.server_data SmtpData.recv
@@ -12,4 +12,8 @@ Extraction "model.ml"
   ServerInfo.from_response ServerInfo.xtext ServerInfo.get_auth_mechanism
   Auth.mech_response Auth.auth_initial Auth.auth_from_response
   Client.run_session
-  Utf8.utf8 Utf8.utf8_decode Address.addr_from_str Address.addr_new Address.strip_brackets Xtext.xdec.
+  Utf8.utf8 Utf8.utf8_decode Address.addr_from_str Address.addr_new Address.strip_brackets Xtext.xdec
+  HeaderEnc.header_value_encode HeaderEnc.header_name_ok HeaderEnc.header_line HeaderEnc.mailboxes_header_encode
+  HeaderEnc.content_disposition_encode HeaderEnc.tokens
+  Rfc5322.header_block Rfc5322.unfold Rfc5322.lines_of Rfc5322.no_bare_crlf
+  Rfc2047.decode_unstructured Rfc2047.decode_phrase Rfc2047.decode_word Rfc2231.decode_disposition.
